@@ -17,3 +17,7 @@ for k, r in res.items():
         print("XVAL", r["job"], json.dumps(s, default=str)[:1200])
     if r["abort_reasons"]: print("ABORT", r["job"], r["abort_reasons"])
     if r["exceptions"]: print("EXC", r["job"], r["exceptions"])
+for k, r in res.items():
+    if r["unknown"]: print("UNKNOWN", r["job"], r["unknown"], "paths", r["paths"], "solver_s", round(r["solver_s"],1))
+slow = sorted(res.values(), key=lambda r: -r["solver_s"])[:6]
+for r in slow: print("SLOW", r["job"], "paths", r["paths"], "solver_s", round(r["solver_s"],1), "wall", round(r.get("wall_s",0),1))
